@@ -30,12 +30,12 @@ def replay(c):
     def bidding(self, dealer, vul):
         count['b'] += 1
         if count['b'] == k and not in_play:
-            raise exc('injected: illegal call')
+            raise exc(c.get('message') or 'injected: illegal call')
         return real_b(self, dealer, vul)
 
     def playing(self, contract, cards):
         if count['b'] == k and in_play:
-            raise exc('injected: card not held')
+            raise exc(c.get('message') or 'injected: card not held')
         return real_p(self, contract, cards)
     S.bidding_phase, S.playing_phase = bidding, playing
     try:
